@@ -25,8 +25,12 @@ OuterT(ho, co, hi, ci, hu) ==
        <<"o", <<"opt", InnerT(hi, ci)>>, <<"val", None>>, <<>> >>,
        <<"m", <<"dict", <<"str">>, InnerT(hi, ci)>>, <<"fac", Dct(<<>>)>>, <<>> >> >>,
     Cfg(ho, co)>>
+\* Outer refers to Inner by a FORWARD REFERENCE: Outer's methods are compiled on first use (postponed evaluation)
+OuterFwd(ho, hi) ==
+  <<"dc", "Outer", << N, <<"inner", <<"fwd", "Inner", InnerT(hi, FALSE)>>, <<"req">>, <<>> >>,
+                      <<"items", <<"list", <<"fwd", "Inner", InnerT(hi, FALSE)>> >>, <<"req">>, <<>> >> >>, Cfg(ho, FALSE)>>
 Outers == { OuterT(ho, co, hi, ci, hu) : ho \in HookSets, co \in BOOLEAN, hi \in HookSets, ci \in BOOLEAN, hu \in { {}, {"pre_ser", "post_ser", "pre_deser", "post_deser"} } }
-Shapes == Outers
+Shapes == Outers \cup { OuterFwd(ho, hi) : ho \in HookSets, hi \in HookSets }
           \cup { <<"list", OuterT(h, FALSE, h, FALSE, h)>> : h \in HookSets }
           \cup { <<"union", <<AT(h), BT(h)>> >> : h \in HookSets }
           \cup { <<"dict", <<"str">>, <<"opt", InnerT(h, FALSE)>> >> : h \in HookSets }
@@ -36,7 +40,8 @@ OV(n, u, o) == <<"obj", "Outer", <<I(n), In(n + 1), L(<<In(n + 2), In(n + 3)>>),
 UA(n) == <<"obj", "A", <<I(n), I(7)>> >>
 UB(n) == <<"obj", "B", <<I(n), S("b")>> >>
 ValuesOf(S_) ==
-  CASE S_[1] = "dc" -> { OV(100, UA(150), None), OV(200, UB(250), In(204)) }
+  CASE S_[1] = "dc" /\ Len(S_[3]) = 3 -> { <<"obj", "Outer", <<I(100), In(101), L(<<In(102), In(103)>>)>> >> }
+    [] S_[1] = "dc" -> { OV(100, UA(150), None), OV(200, UB(250), In(204)) }
     [] S_[1] = "list" -> { L(<<OV(100, UA(150), None), OV(300, UB(350), In(304))>>), L(<<>>) }
     [] S_[1] = "union" -> { UA(10), UB(20) }
     [] S_[1] = "dict" -> { Dct(<< <<S("p"), In(10)>>, <<S("q"), None>>, <<S("r"), In(30)>> >>) }
@@ -52,6 +57,7 @@ RECURSIVE NoHooks(_)
 NoHooks(S_) ==
   CASE S_[1] = "dc" -> <<"dc", S_[2], [i \in DOMAIN S_[3] |-> <<S_[3][i][1], NoHooks(S_[3][i][2]), S_[3][i][3], S_[3][i][4]>>], <<>> >>
     [] S_[1] \in {"list", "opt"} -> <<S_[1], NoHooks(S_[2])>>
+    [] S_[1] = "fwd" -> <<"fwd", S_[2], NoHooks(S_[3])>>
     [] S_[1] = "dict" -> <<"dict", S_[2], NoHooks(S_[3])>>
     [] S_[1] = "union" -> <<"union", [i \in DOMAIN S_[2] |-> NoHooks(S_[2][i])]>>
     [] OTHER -> S_
